@@ -8,17 +8,17 @@ HERE = Path(__file__).resolve().parent.parent
 CHECKS = {
     "C01": dict(
         technique="exhaustive small-scope enumeration + Hypothesis random search against a set-comprehension reference model of the rule semantics",
-        text="Every import relation over a fixed 5-module tree x every unrelated rule instantiation is compared with an independent reference verdict (thorough: three trees, root targets, bounded edge subsets on 6/7-module trees), followed by seeded Hypothesis search over larger random trees; a slice of both tiers applies every rule object to a second architecture first (re-use must not matter) and gives a named side as an equivalent anchored regex. Bounded exploration, not proof: complete only up to the stated tree/batch sizes.",
+        text="Every import relation over a fixed 5-module tree x every rule instantiation whose subjects are unrelated to its objects, and bounded relations x every rule whose subjects are the same as / above / below its objects ('sub modules of X should not import X'), are compared with an independent reference verdict (thorough: three trees, root targets, bounded edge subsets on 6/7-module trees), followed by seeded Hypothesis search over larger random trees; a slice of both tiers applies every rule object to a second architecture first (re-use must not matter) and gives a named side as an equivalent anchored regex. Bounded exploration, not proof: complete only up to the stated tree/batch sizes.",
         note="Trusts the reference model in pbt/models.py (reading of LANGUAGE_DEFINTION.md 'Semantics' and the property text) and the direct graph construction NetworkxGraph(modules, [AbsoluteImport]) also used by the repository's tests.",
         ref="5 C01"),
     "C03": dict(
         technique="exhaustive small-scope enumeration + Hypothesis; parsed violation message and public query results compared as sets with the reference violating set",
-        text="Same space as C01; every AssertionError message is parsed line by line and compared (both inclusions) with the reference report, and the three public query methods are compared with the model's pair sets for every graph and subject/object choice; reports of failing layer rules (C05's space) are compared the same way with the reference layer semantics, including the layer tag of every module; rule objects are re-used across architectures in a slice of the cases.",
+        text="Same space as C01 (unrelated and related subjects/objects); every AssertionError message is parsed line by line and compared (both inclusions) with the reference report, and the three public query methods are compared with the model's pair sets for every graph and subject/object choice; reports of failing layer rules (C05's space) are compared the same way with the reference layer semantics, including the layer tag of every module; rule objects are re-used across architectures in a slice of the cases.",
         note="Trusts pbt/models.py and the line grammar in pbt/msgparse.py (taken from the documented message table); module names are identifiers.",
         ref="5 C03"),
     "C02": dict(
         technique="grammar-enumerated AST slot paths x import forms (exhaustive to depth 2/3) + Hypothesis project trees, differential against a name-resolution reference model",
-        text="Every statement-list position of the running interpreter's grammar, nested to depth 2 (thorough 3), times every import form is rendered into compiling source files, scanned, and the resulting import edges compared in both directions with the targets the statements name; some files are stored with a byte order mark or an encoding declaration.",
+        text="Every statement-list position of the running interpreter's grammar, nested to depth 2 (thorough 3), times every import form is rendered into compiling source files, scanned, and the resulting import edges compared in both directions with the targets the statements name; some files are stored with a byte order mark or an encoding declaration; the paths that do not need match / except* are also scanned by a child interpreter whose ast module lacks the classes of newer Python versions; relative imports that leave the scanned root yield no edge and do not disturb the other statements.",
         note="Trusts ast.unparse/compile of the running CPython and the target-resolution rules written from the property text; imports of own ancestors are outside the claim.",
         ref="5 C02"),
     "C04": dict(
@@ -33,8 +33,8 @@ CHECKS = {
         ref="5 C05"),
     "C06": dict(
         technique="grammar-based generation of PlantUML text from a random component relation (exhaustive two-component form matrix + Hypothesis), round-trip oracle",
-        text="Diagrams are rendered from a known relation in every documented declaration/reference/arrow form and parsed back; the parsed components and dependencies must equal the relation; sequences of diagrams are parsed one after the other (an alias token of one is a component name of the next).",
-        note="Documented subset only (one block per file, aliases on all three declaration forms, no leading or trailing blanks).",
+        text="Diagrams are rendered from a known relation in every documented declaration/reference/arrow form and parsed back; the parsed components and dependencies must equal the relation; blanks / tabs around lines, arrows with and without blanks, identifiers with combining marks are part of the space; sequences of diagrams are parsed one after the other (an alias token of one is a component name of the next).",
+        note="Documented subset only (one block per file, aliases on all three declaration forms; no comments, arrow labels or package blocks).",
         ref="5 C06"),
     "C07": dict(
         technique="exhaustive component/arrow/import enumeration + Hypothesis against the conformance formula; aggregated message compared with the union of per-rule reference reports; naming options compared differentially",
@@ -43,7 +43,7 @@ CHECKS = {
         ref="5 C07"),
     "C08": dict(
         technique="exhaustive string enumeration of the glob-to-regex converter against literal glob semantics + Hypothesis trees with exclusion tuples compared with a pruned-tree reference and glob-vs-regex differential",
-        text="7.4 million (pattern, subject) pairs over a metacharacter alphabet, and filtered scans of random trees (glob tuples, equivalent regexes, free-form regexes, with and without external libraries, the documented call forms exclusions=() and regex_exclusions alone) compared with the unfiltered scan minus the excluded subtrees.",
+        text="7.4 million (pattern, subject) pairs over a metacharacter alphabet, and filtered scans of random trees (glob tuples, equivalent regexes, free-form regexes, with and without external libraries, the documented call forms exclusions=() and regex_exclusions alone, a module_path at, below or outside an excluded directory, one pattern against an empty tuple on trees with __pycache__ directories) compared with the unfiltered scan minus the excluded subtrees.",
         note="Patterns are matched against str(absolute path).",
         ref="5 C08"),
     "C09": dict(
@@ -53,7 +53,7 @@ CHECKS = {
         ref="5 C09"),
     "C11": dict(
         technique="metamorphic: compact (regex / partial name / batch) rule vs its expansion on the same architecture; exhaustive over a small tree + Hypothesis",
-        text="Every compact specification is evaluated next to its expansion computed by the harness; verdicts must be equal, empty expansions must raise; the batch law is enumerated for all subject/object sets of 1-2 modules (overlapping and related sets included) on a small tree; rule objects are re-used across architectures in which a regex matches other modules.",
+        text="Every compact specification (one expression / partial name or a list of them) is evaluated next to its expansion computed by the harness; verdicts must be equal, empty expansions must raise; the batch law is enumerated for all subject/object sets of 1-2 modules (overlapping and related sets included) on a small tree; rule objects are re-used across architectures in which a regex matches other modules.",
         note="Expansion uses re.match over the module list / the harness's own glob semantics.",
         ref="5 C11"),
     "C12": dict(
@@ -63,12 +63,12 @@ CHECKS = {
         ref="5 C12"),
     "C13": dict(
         technique="exhaustive call-history enumeration against specification automata (Rule / LayerRule / DiagramRule), chain mutations, Hypothesis absent-name cases, exhaustive entry-point option matrix",
-        text="Every history classified must-error has to raise a non-assertion error and never return a verdict; absent names are tried in rules, regex batches, layers and diagrams, also with a rule object that was first applied to an architecture in which the name exists; module_path is also spelt with '..'.",
+        text="Every history classified must-error has to raise a non-assertion error and never return a verdict; absent names are tried in rules, regex batches, layers (also a layer that never received modules, named next to defined ones) and diagrams, also with a rule object that was first applied to an architecture in which the name exists; module_path is also spelt with '..'.",
         note="Automata written from the property text; histories with a repeated layers_that() are not classified.",
         ref="5 C13"),
     "C16": dict(
         technique="exhaustive call-sequence exploration (depth-first, cut at the first rejected call) against LayerBuilderModel / LayerRuleModel + Hypothesis longer sequences",
-        text="Accept/reject per call must agree with the model (incl. an empty layer named as subject), and accepted definitions must expose exactly the supplied layers and modules.",
+        text="Accept/reject per call must agree with the model (no claim about the call that names a layer without modules), and accepted definitions must expose exactly the supplied layers and modules.",
         note="Behaviour after a rejected call is not judged.",
         ref="5 C16"),
     "C17": dict(
@@ -88,7 +88,7 @@ CHECKS = {
         ref="5 C14"),
     "C15": dict(
         technique="Hypothesis rule-based state machine (every step recorded as data, replayable) over shared evaluables with a fresh-evaluation oracle and a snapshot invariant; permuted iterdir/exclusion order; 8-interpreter PYTHONHASHSEED differential",
-        text="Histories of up to 40 evaluations (new, re-applied to either architecture, re-targeted diagram rules, permuted lists) must leave the evaluables unchanged and agree with fresh evaluations; scans must not depend on directory order; outputs must be identical under 8 hash seeds.",
+        text="Histories of up to 40 evaluations (new, re-applied to either architecture, re-targeted diagram rules, permuted lists) must leave the evaluables unchanged and agree with fresh evaluations (verdict, message, and the text of a lookup error); scans must not depend on directory order; outputs must be identical under 8 hash seeds.",
         note="Hash seeds and directory orders are sampled, not exhausted.",
         ref="5 C15"),
 }
@@ -134,7 +134,7 @@ def main():
         }],
         "checks": checks,
         "not_applicable": na,
-        "notes": "All checks: ./check <ID> --tier quick|thorough; VERIF_SEED selects the Hypothesis seeds; exit 2 = harness error. 40 genuine defects found were repaired in /repo by 'fix:' commits and are listed as 'fixed' in known_findings.json (no unrepaired known findings). Sensitivity: tools/selftest.py (reverse of every fix + hand-written mutants + 100 independently written regressions under seeded/), tools/mutate.py (systematic first-order mutation).",
+        "notes": "All checks: ./check <ID> --tier quick|thorough; VERIF_SEED selects the Hypothesis seeds; exit 2 = harness error. 51 genuine defects found were repaired in /repo by 'fix:' commits and are listed as 'fixed' in known_findings.json (no unrepaired known findings). Sensitivity: tools/selftest.py (reverse of every fix + hand-written mutants + 204 independently written regressions under seeded/), tools/mutate.py (systematic first-order mutation).",
     }
     (HERE / "MANIFEST.json").write_text(json.dumps(man, indent=1) + "\n")
 
